@@ -7,7 +7,8 @@ Tie of `Model/Grammar.lean` (the theorems of Properties/C01.lean are about it) t
   ast) – the table the theorems are instantiated at; compared exhaustively with the runtime table;
 * correspondence `ptdriver grammar` vs `periodictable.formula(str, table=…)` on
   (0) every nameable atom and its invalid neighbours (exhaustive), (1) strings rendered from random
-  canonical derivations, (2) one malformation from the fixed list applied to such a string,
+  canonical derivations, (2) one malformation from the fixed list applied to such a string (a number
+  token with digits that are not ASCII 0-9 included), (1b) long shallow strings of 100-320 sibling groups,
   (3) nasty / byte-mutated strings, (4) every string of length <= 3 (thorough: <= 4) over a
   19-character alphabet that covers every token class; public table and a private table with altered
   isotope / ion lists (the other table's grammar is used in between); compared: accepted / rejected,
@@ -471,6 +472,12 @@ def run_chunk(run: Run, tname, n_acc, n_mal, n_nasty, maxdepth, sweep):
                 ms = G.malform(rng, d, ref, kind)
                 cases.append(("malformed", ms, kind, None))
             run.dist["malformation:" + kind] = run.dist.get("malformation:" + kind, 0) + 1
+        # (2b) one of its numbers written with digits that are not ASCII 0-9
+        if n_mal > 0 and rng.random() < 0.12:
+            md = G.malform_digits(rng, d)
+            if md is not None:
+                cases.append(("malformed", md[0], md[1], None))
+                run.dist["malformation:non-ascii-digit(%s)" % md[1]] = run.dist.get("malformation:non-ascii-digit(%s)" % md[1], 0) + 1
         # (3b) a byte mutation of it
         if rng.random() < 0.25:
             cases.append(("nasty", G.mutate(rng, s), None, None))
@@ -550,6 +557,46 @@ def run_long_history(run: Run, tname, n):
         if a1 is not a2:
             run.violation("parsing %r before and after %d other atoms gives two different atom objects"
                           % (first_t, len(items) - 1), inp, kind="wrong-composition")
+
+
+def run_long_shallow(run: Run, tname, n):
+    """long but shallow strings: a hundred to a few hundred sibling groups, most of them parenthesised,
+    nesting depth 1 or 2 (a polymer or peptide written out unit by unit) – through the same checker as
+    the accepted stream (documented reading of the derivation, model), plus fixed repeat-unit strings"""
+    ref, tbl, prefix = tables(tname)
+    rng = run.rng
+    ck = Checker(run, tname, ref, tbl, prefix)
+    cases = []
+    for _ in range(n):
+        k = rng.choice([101, 110, 128, 150, 200, 260, 320])
+        d = G.gen_long_compound(rng, ref, k, pe=rng.choice([0.5, 0.8, 1.0]), inner_depth=rng.choice([1, 1, 2]),
+                                pb=rng.choice([0.0, 0.05]))
+        s = G.text_of(G.render_compound(d))
+        run.dist["long-shallow:groups>100"] = run.dist.get("long-shallow:groups>100", 0) + (s.count("(") > 100)
+        want = G.den_compound(d, ref)
+        try:
+            if ref_read(s, ref) != want:
+                raise InfraError("harness: reference reader and derivation reading differ on a long string")
+        except Reject as e:
+            raise InfraError("harness: reference reader rejects a generated long string (%s)" % e)
+        cases.append(("accepted", s, (want, G.features(d) | {"long"}), None))
+    # a repeat unit written out k times, with and without counts
+    z = {sym: ref[sym]["z"] for sym in ("C", "H", "O", "N")}
+    for k in (100, 101, 125, 250):
+        text = "HO" + "(CH2CH2O)" * k + "H"
+        atoms = {(z["H"], 0, 0): Fraction(4 * k + 2), (z["O"], 0, 0): Fraction(k + 1), (z["C"], 0, 0): Fraction(2 * k)}
+        cases.append(("accepted", text, ((atoms, Fraction(0), None), {"nested", "long"}), None))
+        text = " + ".join("((CH2)2O)%d N" % (j % 3 + 1) for j in range(k)) + "@1.1"
+        u = sum(j % 3 + 1 for j in range(k))
+        atoms = {(z["C"], 0, 0): Fraction(2 * u), (z["H"], 0, 0): Fraction(4 * u), (z["O"], 0, 0): Fraction(u),
+                 (z["N"], 0, 0): Fraction(k)}
+        cases.append(("accepted", text, ((atoms, Fraction(0), ("i", Fraction(11, 10))), {"nested", "long", "dens"}), None))
+    try:
+        ck.check(cases)
+    except RecursionError:
+        run.violation("a long shallow string of the documented grammar exhausts the parser's recursion",
+                      dict(table=tname, string="(one of %d long strings)" % len(cases), stream="long-shallow"),
+                      kind="grammar-string-rejected")
 
 
 def run_reparse(run: Run, tname, n):
@@ -671,6 +718,7 @@ def run(run: Run) -> int:
         tasks += [(run_strict_blank, ("public", 40))]
         tasks += [(run_long_history, ("public", 3)), (run_long_history, ("private", 1))]
         tasks += [(run_reparse, ("public", 150)), (run_reparse, ("private", 50))]
+        tasks += [(run_long_shallow, ("public", 12)), (run_long_shallow, ("private", 6))]
     else:
         tasks = [(run_chunk, ("public", 5000, 2000, 4000, 4 + i % 4, "full" if i == 0 else None)) for i in range(60)]
         tasks += [(run_chunk, ("private", 4000, 1600, 3000, 4 + i % 3, "full" if i == 0 else None)) for i in range(16)]
@@ -680,6 +728,7 @@ def run(run: Run) -> int:
         tasks += [(run_strict_blank, ("public", 2000))]
         tasks += [(run_long_history, ("public", 40)), (run_long_history, ("private", 20))]
         tasks += [(run_reparse, ("public", 4000)), (run_reparse, ("private", 1500))]
+        tasks += [(run_long_shallow, ("public", 50)) for i in range(3)] + [(run_long_shallow, ("private", 30)) for i in range(2)]
     G.run_chunks(run, tasks)
     run.exhaustive = False
     return run.finish(RULE, assumptions=[
